@@ -47,7 +47,7 @@ def _base(draw, max_len=7):
             'delta_factor': draw(st.sampled_from([1.0, 0.9, 0.5, 0.25])),
             'penalty': draw(st.sampled_from([None, 0, 0.05, 0.25, 0.5])),
             'window': draw(st.one_of(st.none(), st.integers(1, max(len(s1), l2) + 1))),
-            'only_triu': (draw(st.booleans()) if (s2 is None or len(s1) == l2) else False)}
+            'only_triu': (draw(st.booleans()) if (s2 is None or len(s1) == l2) else draw(st.integers(0, 3)) == 0)}
 
 
 def ref_affinity(case):
@@ -253,6 +253,14 @@ def run_hist(case):
     if exc:
         res.fail('hist:init:' + exc, 'LocalConcurrences / align raised')
         return res
+    # the object's own matrix (full, or compact expanded through wp_slice) must be the reference matrix
+    import numpy as np
+    Mo, exc = libcall(lambda: np.array(lc.wp_slice() if lc.compact else lc.wp, dtype=float))
+    if exc:
+        res.fail('hist:matrix:' + exc, 'reading the matrix of the LocalConcurrences object raised')
+    else:
+        _check(res, 'hist:matrix', case, [[float(x) for x in r] for r in Mo], A)
+    amax = max(max(r[1:]) for r in A[1:]) if l1 and l2 else 0.0
     used = set()
     total = 0
     cont = False
@@ -280,6 +288,15 @@ def run_hist(case):
             res.fail('hist:count', '%d matches for k=%d' % (len(got), k))
         if restart:
             used = set()
+            # matches are traced from a maximum: with minlen <= 1 the first match must exist whenever a positive cell
+            # exists and must start from a cell holding the maximum of the matrix
+            if minlen <= 1 and amax > 0:
+                if not got:
+                    res.fail('hist:no-match', '%r returned no match although the matrix has positive cells (max %r)'
+                             % (op, amax))
+                elif not ref.close(A[got[0][0]][got[0][1]], amax):
+                    res.fail('hist:not-from-maximum', 'first match starts at (%d,%d) = %r, the maximum is %r'
+                             % (got[0][0], got[0][1], A[got[0][0]][got[0][1]], amax))
             fresh, excf = libcall(_mk_lc, case)
             if excf is None:
                 exp, excf = libcall(lambda: _paths(fresh.kbest_matches(k=k, minlen=minlen, buffer=0, restart=True), cap))
